@@ -11,6 +11,7 @@
 #define vspol ((mapping) REG->pol ("vs"))
 #define copol ((mapping) REG->pol ("co"))
 #define vbpol ((mapping) REG->pol ("vb"))
+#define vopol ((mapping) REG->pol ("vo"))
 
 void create () { oid = "m"; }
 
@@ -54,6 +55,7 @@ void set_pol (string kind, string a, string b, string c) {
   else if (kind == "co") { if (b == "-") map_delete (m, a); else m[a] = b; }
   else if (kind == "vs") m[a + ":" + (b == "-" ? "" : b)] = c;
   else if (kind == "vb") m[a + ":" + b] = c;
+  else if (kind == "vo") { if (b == "-") map_delete (m, a); else m[a] = b; }
 }
 
 mixed answer (string spec) {
@@ -62,6 +64,19 @@ mixed answer (string spec) {
   if (spec == "arr") return ({ });
   if (spec == "err") error ("policy error\n");
   return 0;
+}
+
+// valid_object(ob): asked by load_object about every new blueprint, before creator_file (`pol vo <dir> <spec>`; without a
+// policy for the directory: approve silently).  An approving answer closes the segment with a snapshot.
+mixed valid_object (object ob) {
+  string file, d, f, spec;
+  mixed a;
+  file = file_name (ob);
+  if (sscanf (file, "/c20/%s/%s", d, f) != 2 || !stringp (spec = vopol[d])) return 1;
+  VL ("vo " + file + " " + spec);
+  a = answer (spec);
+  if ((intp (a) && a) || (!intp (a))) REG->snap ();
+  return a;
 }
 
 mixed creator_file (string file) {
